@@ -23,8 +23,15 @@ WRONG = [("SizeNoNul", "SizeExact", "string"), ("MsgCountWord", "RoundTrip", "me
 _tlc_slots = threading.Semaphore(8)          # at most 8 TLC processes (one worker each) at a time
 
 
+_timing = []
+
+
 def tlc(*a, **kw):
-    with _tlc_slots: return vlib.tlc(*a, **kw)
+    t0 = time.time()
+    with _tlc_slots:
+        t1 = time.time(); r = vlib.tlc(*a, **kw)
+    _timing.append((a[1], round(t1 - t0, 1), round(r.wall, 1)))
+    return r
 
 
 def run(v, tier, seed):
@@ -103,9 +110,13 @@ def run(v, tier, seed):
 
     def action_coverage():
         # coverage=True is slow on these recursive operators: a tiny instance for the action counts, the transition table of the replay for the rest
-        name = mkcfg("Cov", consts={"Inst": q("bool"), "MaxItems": 1, "RECORD": q("off")}, invs=["TypeOK"])
-        r = tlc("WireMC", name, wirelib.FAM, workers=1, timeout=900, coverage=True, heap="2g")
+        name = mkcfg("Cov", consts={"Inst": q("bool"), "MaxItems": 1, "RECORD": q("bytes")}, invs=["TypeOK"])
+        r = tlc("WireMC", name, wirelib.FAM, workers=1, timeout=900, coverage=True, heap="2g", keep_out=True)
         vlib.require_ok(r, "WireMC coverage run")
+        if "DoRemoveName" not in r.coverage:      # TLC books DoRemoveName == \E s \in ... : Do(s) under the operator it expands to: "<Do line .. of module WireMC (..)>: taken:generated"
+            import re
+            mm = re.search(r"^<Do line \d+, col \d+ to line \d+, col \d+ of module WireMC \([\d ]+\)>: (\d+):(\d+)", r.out, re.M)
+            if mm: r.coverage["DoRemoveName"] = (int(mm.group(1)), int(mm.group(2)))
         vlib.require_coverage(r, wirelib.MC_ACTIONS, "WireMC")
         return {a: r.coverage[a][0] for a in wirelib.MC_ACTIONS}
 
@@ -170,7 +181,7 @@ def run(v, tier, seed):
         ok["corrupted_behaviour_step_reported"] = any(x.get("violations") for x in rows)
         # a recorded line with one byte changed must be rejected by TLC, at that line
         tr = W("self.trace.ndjson"); rep2 = W("self2.rep.ndjson")
-        rc, out, err = vlib.run([vlib.binpath("plain", "wire"), "gen", seed, 2, 12, tr, rep2], timeout=120, env=wirelib.harness_env())
+        rc, out, err = vlib.run([vlib.binpath("plain", "wire"), "gen", str(seed), "2", "12", tr, rep2], timeout=120, env=wirelib.harness_env())
         lines = open(tr).read().splitlines()
         k = 17; ln = json.loads(lines[k]); ln["b"][len(ln["b"]) // 2] ^= 4; lines[k] = json.dumps(ln, separators=(",", ":"))
         open(tr, "w").write("\n".join(lines) + "\n")
@@ -182,25 +193,37 @@ def run(v, tier, seed):
         if not all(ok.values()): raise vlib.MachineryError("self-test of the binding failed: %s" % ok)
         return ok
 
-    maxitems = 3
+    maxitems = 3 if quick else 4
+    t_start = time.time()
     try:
         with cf.ThreadPoolExecutor(max_workers=12) as ex:
             f_inst = [ex.submit(instance, i, maxitems) for i in wirelib.GEN_INSTANCES]
-            f_misc = [ex.submit(mixed), ex.submit(simulate, 150 if quick else 4000, 24 if quick else 40)]
+            scale = float(os.environ.get("VERIF_SCALE", "1"))           # < 1: a reduced thorough run
+            f_misc = [ex.submit(mixed), ex.submit(simulate, 150 if quick else max(200, int(6000 * scale)), 24 if quick else 40)]
             f_wrong = [ex.submit(wrong, *w) for w in WRONG]
             f_reach = [ex.submit(reach, t) for t in ("Reach_ThreeItems", "Reach_BackToOne")]
             f_cov = ex.submit(action_coverage)
             f_self = ex.submit(selftest)
-            nsh, nmsgs, nsteps = (4, 30, 60) if quick else (16, 700, 90)
+            nsh, nmsgs, nsteps = (4, 30, 60) if quick else (16, max(20, int(1500 * scale)), 120)
             f_gen = [ex.submit(generate, k, nmsgs, nsteps) for k in range(nsh)]
-            if not quick: f_gen.append(ex.submit(generate, 99, 300, 90, "asan"))
-            for f in f_inst + f_misc + f_wrong + f_reach + f_gen: f.result()
-            notes["guards"]["actions_taken_in_the_coverage_run"] = f_cov.result()
-            notes["guards"]["selftest"] = f_self.result()
+            if not quick: f_gen.append(ex.submit(generate, 99, max(20, int(600 * scale)), 120, "asan"))
+            # a machinery failure (a guard, a stage that cannot run) must not mask a violation already found on the real code: with a mutated
+            # codec the self-test and the later stages can fail in their own ways
+            errors = []
+            for f in f_inst + f_misc + f_wrong + f_reach + f_gen:
+                try: f.result()
+                except Exception as ex: errors.append(ex)
+            for key, f in (("actions_taken_in_the_coverage_run", f_cov), ("selftest", f_self)):
+                try: notes["guards"][key] = f.result()
+                except Exception as ex: errors.append(ex)
+            if errors:
+                if not v.violations: raise errors[0]
+                vlib.log("note: %d machinery failures after a violation was found are not reported (first: %s)" % (len(errors), str(errors[0])[:300]))
     finally:
         for n in made_cfgs:
             try: os.remove(os.path.join(wirelib.SPECDIR, n))
             except OSError: pass
+    if os.environ.get("VERIF_TIMING"): vlib.log("timing (cfg, waited for a slot, tlc wall): %s total %.1f" % (sorted(_timing, key=lambda x: -x[2])[:12], time.time() - t_start))
     notes["guards"]["wrong_codec_variants_violate"] = {b: i for b, i, _ in WRONG}
     notes["guards"]["reached"] = ["Reach_ThreeItems", "Reach_BackToOne"]
     # vacuity: the replayed calls crossed the representation boundary in both directions, for real
